@@ -301,3 +301,42 @@ def run(repo: Repo, chk: Check, thorough: bool = False) -> None:
     chk.ob('R08.6', 'pydoctor.epydoc2stan.reportErrors :: once per object', ok,
            'report() is dominated by a `fullName() not in parse_errors[section]` test and the name is added' if ok else
            (locals().get('key_detail') or 'reportErrors no longer de-duplicates per object'), re_.loc)
+
+    # ---------------------------------------------------------------- R08.9 a field whose body cannot be rendered still shows its text
+    ff = repo.func('pydoctor.epydoc2stan.Field.format')
+    fcs = [c for c in calls_in(ff) if call_name(c) == 'safe_to_stan']
+    if not fcs:
+        raise AnalysisError('R08.9: Field.format no longer renders through safe_to_stan')
+    for c in fcs:
+        fb = next((kw.value for kw in c.keywords if kw.arg == 'fallback'), c.args[3] if len(c.args) > 3 else None)
+        gs = cg._funcs_of_value(fb, ff) if fb is not None else []
+        def _shows_text(g: Func) -> bool:
+            if isinstance(g.node, ast.Lambda):
+                return not (isinstance(g.node.body, ast.Name) and g.node.body.id == 'BROKEN')
+            rets = [r for r in g.walk() if isinstance(r, ast.Return) and r.value is not None]
+            return any(not (isinstance(r.value, ast.Name) and r.value.id == 'BROKEN') for r in rets)
+        okf = bool(gs) and all(_shows_text(g) for g in gs)
+        chk.ob('R08.9', 'epydoc2stan.Field.format :: the fallback shows the text of the field', okf,
+               'plain text recovered from the parsed body (BROKEN only when even that fails)' if okf else
+               f'fallback `{norm(fb)[:50] if fb is not None else "?"}` answers the constant BROKEN: when the body of a field cannot be rendered (an empty '
+               '`.. code::` under a :param:, a form feed, a failing type field) the page says "Broken description" and the text of the field appears nowhere',
+               repo.loc(ff.mod, c))
+    chk.require('R08.9', 1)
+
+    # ---------------------------------------------------------------- R08.10 one docstring cannot change how the next ones are parsed
+    # docutils keeps the roles declared with `.. role::` in a table that is global to the process (docutils.parsers.rst.roles._roles):
+    # the reST parser has to put it back after each docstring
+    rp = repo.func('pydoctor.epydoc.markup.restructuredtext.parse_docstring')
+    pubs = [c for c in calls_in(rp) if call_name(c) == 'publish_string']
+    if not pubs:
+        raise AnalysisError('R08.10: publish_string is no longer called from the reST parse_docstring')
+    restored = False
+    for t in enclosing_trys(pubs[0], rp.node):
+        if any(isinstance(x, ast.Attribute) and x.attr == '_roles' for st in t.finalbody for x in ast.walk(st)):
+            restored = True
+    chk.ob('R08.10', 'epydoc.markup.restructuredtext.parse_docstring :: the global role table of docutils is restored', restored,
+           'saved before publish_string, put back in a finally block' if restored else
+           'a `.. role:: strike` / `.. role:: sub(strong)` in one docstring stays registered for every docstring parsed afterwards: another object renders '
+           'differently and its unknown-role error is no longer reported ("no other object is affected" does not hold)', repo.loc(rp.mod, pubs[0]))
+    chk.require('R08.10', 1)
+
